@@ -73,6 +73,8 @@ func init() {
 		{"C18", "C18/draft-keywords-gated", "C02/draft-keywords-gated", ruleC02DraftKeywords},
 		{"C02", "C02/empty-preserved", "C05/empty-preserved", ruleC05Empty},
 		{"C04", "C04/type-subsumption", "C01/type-subsumption", ruleC01TypeSubsumption},
+		{"C19", "C19/json-name-conflicts", "C04/json-name-conflicts", func(c *Ctx) { ruleJSONNameConflicts(c, "C04/json-name-conflicts") }}, // the inferred order is the order of the fields that win
+		{"C16", "C16/json-name-conflicts", "C04/json-name-conflicts", func(c *Ctx) { ruleJSONNameConflicts(c, "C04/json-name-conflicts") }},
 	} {
 		sh := sh
 		p := Properties[sh.prop]
